@@ -114,7 +114,12 @@ def crosscheck_function(world, contract, per_path=2, seed=0, max_paths=60):
                 stats['skipped'] += 1
                 stats['float_boundary'] = stats.get('float_boundary', 0) + 1
                 continue
-            r = replay.replay_with_model(world, contract, pr.replay_state, pr.pc, m)
+            import random
+            replay.DIVERSIFY, replay._DIVERSE = random.Random(seed * 7919 + stats['samples']), {}
+            try:
+                r = replay.replay_with_model(world, contract, pr.replay_state, pr.pc, m)
+            finally:
+                replay.DIVERSIFY, replay._DIVERSE = None, {}
             stats['samples'] += 1
             if r.get('status') == 'not-confirmed':
                 stats['agree'] += 1
